@@ -13,6 +13,9 @@ import Zstd.Proofs.FseReadDesc
 import Zstd.Proofs.FseEncTable
 import Zstd.Proofs.FseTableDesc
 import Zstd.Proofs.FseCoupled
+import Zstd.Proofs.FseEndToEnd
+import Zstd.Proofs.SeqSection
+import Zstd.Proofs.SeqSectionBlk
 /-
 C12 — FSE tables equal the specification's; FSE encoder and decoder are exact inverses.
 (+ the bit-level I/O models everything else builds on.)
@@ -546,12 +549,21 @@ theorem encode_decode_interleaved {al : Nat} {probs : List Int} {maxSymbol : Nat
   Proofs.FseStreamInter.encode_decode_interleaved_stream
     (coupled2_of_buildable hb hms hav het hdec hdt hal) data h4 hlen hu hw
 
-/-- what is NOT composed into one statement yet (every link is proved above): `encode` = `write_table`
-followed by the stream; `build_decoder` on the resulting bytes = `read_probabilities`
-(`write_read_table_partial`: same probabilities, byte count `= |description|`) then `build_decoding_table`
-(`enc_table_eq_dec_table`: the coupled table); the reversed reader over the remaining bytes sees exactly
-the stream bits.  Missing: the 60-line bookkeeping lemma about `DTable.buildDecoder`'s record updates and
-`bitsLE (bytes.drop n)`. -/
+/-- **`encode_decode_single`, end to end** (proved: `encode_decode_single_full_holds`).  For every
+encoder-buildable distribution (`EncBuildable`: `5 ≤ al ≤ 9`, at most 256 symbols, every probability `≥ -1`,
+mass `2^al`, fewer than `2^al` "less than one" symbols) whose last probability is not `0` (a description
+cannot express trailing zeros), every `maxLog ≥ al`, and every non-empty symbol string over symbols with a
+non-zero probability: `FSEEncoder::encode` into a fresh writer succeeds and `dump` yields bytes `out`;
+`FSETable::build_decoder(out, maxLog)` on a fresh table (`max_symbol = 255`) succeeds and returns the byte
+count of the description; the reversed reader over the remaining bytes finds the end mark, the single-state
+decode loop returns exactly the input, and `bits_remaining = 0` at the end.
+
+Composition (`Zstd/Proofs/FseEndToEnd.lean`): `encode` = `write_table` followed by the stream;
+`build_decoder` on the resulting bytes = `read_probabilities` (`write_read_table`: same probabilities, byte
+count `= |description| / 8`; its side condition "something follows a final `-1`" holds because the stream is
+never empty — it contains the end mark) then `build_decoding_table` (`enc_table_eq_dec_table` /
+`coupled_of_buildable`: the coupled table); `bitsLE (bytes.drop n) = (bitsLE bytes).drop (8 n)`, so the
+reversed reader over the remaining bytes sees exactly the stream bits (`encode_decode_stream`). -/
 def encode_decode_single_full : Prop :=
   ∀ (al : Nat) (probs : List Int) (maxLog : Nat) (et : ETable), EncBuildable al probs → al ≤ maxLog →
     probs.getLast? ≠ some 0 → buildTableFromProbabilities probs al = .ok et →
@@ -560,6 +572,68 @@ def encode_decode_single_full : Prop :=
       ∃ t used br br', (DTable.new 255).buildDecoder out maxLog = (t, .ok used) ∧
         skipEndMark (BitReaderRev.new (out.extract used out.size)) = .ok (some br) ∧
         decodeStream t data.length br = .ok (data, br') ∧ br'.bitsRemaining = 0
+
+theorem encode_decode_single_full_holds : encode_decode_single_full :=
+  fun _ _ _ _ hb hml hlast het data hne hu =>
+    Proofs.FseEndToEnd.encode_decode_single_full hb hml hlast het data hne hu
+
+
+/-! ## Part 5 — the sequences section (three tables, extra bits) -/
+
+open Zstd.Model Zstd.Model.Enc Zstd.Proofs.SeqSection in
+/-- **`encode_decode_sequences`.**  For every non-empty list of sequences with in-range values (literal
+length ≤ 131071, 3 ≤ match length ≤ 131074, 1 ≤ offset value < 2^32; at most 98 047 of them): the three
+code mappings succeed, `build_table_from_data(codes, 9/9/8, true)` builds the three tables, and the
+bytes the compressor writes for the section — `encode_seqnum`, the modes byte, the LL / OF / ML table
+descriptions (`write_table`) and the three-state bitstream of `encode_sequences` (extra bits in LL, ML,
+OF order, state transitions OF, ML, LL, final states ML, OF, LL, end mark) — are decoded by the STRICT
+`Spec.decodeSequences` (RFC 8878 §3.1.1.3.2: `readDescription`/`buildTable` per table, states
+initialised LL, OF, ML, extra bits read OF, ML, LL, updates LL, ML, OF, stream exactly consumed) to
+exactly those sequences, with the three tables as the tables now in force.  No fault on the way. -/
+theorem encode_decode_sequences (rseqs : List RSeq) (hne : rseqs ≠ []) (hn : rseqs.length ≤ 0xFFFF + 0x7F00)
+    (hr : ∀ r ∈ rseqs, InRange r) (e : Spec.Entropy) :
+    ∃ lls mls ofs cnt body LL OF ML,
+      mapMExcept (fun s : RSeq => encodeLL s.ll) rseqs = .ok lls ∧
+      mapMExcept (fun s : RSeq => encodeML s.ml) rseqs = .ok mls ∧
+      mapMExcept (fun s : RSeq => encodeOffset s.of) rseqs = .ok ofs ∧
+      encodeSeqnum rseqs.length = .ok cnt ∧
+      encodeSeqSectionReal ((lls.zip (mls.zip ofs)).map (fun (a, b, c) => CodedSeq.mk a b c)) = .ok body ∧
+      Bytes (cnt ++ body) ∧
+      Spec.decodeSequences (cnt ++ body) e
+        = some (rseqs.map specSeq, { e with ll := some LL, of := some OF, ml := some ML }) :=
+  Proofs.SeqSection.encode_decode_sequences rseqs hne hn hr e
+
+open Zstd.Model Zstd.Model.Enc Zstd.Proofs.SeqSection in
+/-- **the same against the FAITHFUL mirror of the real decoder** (`Blk.decodeSequences`,
+Model/BlockDecode.lean: `maybe_update_fse_tables` with `build_decoder` on the real `FSETable` objects,
+`BitReaderReversed`, the padding loop, `init_state` ×3, `get_bits_triple`, `update_state`s, the
+`bits_remaining` checks): whatever the three table objects of the scratch held before (only their
+`max_symbol`s matter), the section is decoded to exactly the sequences, `bits_remaining = 0` at the end,
+no error or panic site of the decoder is reached, and the scratch afterwards holds the three new tables
+with all RLE options cleared (so the theorem applies block after block). -/
+theorem encode_decode_sequences_blk (rseqs : List RSeq) (hne : rseqs ≠ []) (hr : ∀ r ∈ rseqs, InRange r)
+    (s : Blk.FseScratch)
+    (hs : s.literalLengths.maxSymbol = Gen.maxLiteralLengthCode ∧ s.offsets.maxSymbol = Gen.maxOffsetCode ∧
+          s.matchLengths.maxSymbol = Gen.maxMatchLengthCode) :
+    ∃ lls mls ofs rest dtL dtO dtM,
+      mapMExcept (fun s : RSeq => encodeLL s.ll) rseqs = .ok lls ∧
+      mapMExcept (fun s : RSeq => encodeML s.ml) rseqs = .ok mls ∧
+      mapMExcept (fun s : RSeq => encodeOffset s.of) rseqs = .ok ofs ∧
+      encodeSeqSectionReal ((lls.zip (mls.zip ofs)).map (fun (a, b, c) => CodedSeq.mk a b c)) = .ok (168 :: rest) ∧
+      Bytes rest ∧
+      (dtL.maxSymbol = Gen.maxLiteralLengthCode ∧ dtO.maxSymbol = Gen.maxOffsetCode ∧
+        dtM.maxSymbol = Gen.maxMatchLengthCode) ∧
+      Blk.decodeSequences rseqs.length (some 168) rest s
+        = (Proofs.SeqSectionBlk.installed dtL dtO dtM, .ok (rseqs.map specSeq)) :=
+  Proofs.SeqSectionBlk.encode_decode_sequences_blk_rust rseqs hne hr s hs
+
+open Zstd.Model Zstd.Model.Enc in
+/-- non-vacuity: two sequences, evaluated by the kernel through the real coders and the strict Spec -/
+example :
+    (match encodeSeqnum 2, encodeSeqSectionReal [⟨(3, 0, 0), (9, 0, 0), (4, 3, 4)⟩, ⟨(16, 1, 1), (0, 0, 0), (10, 77, 10)⟩] with
+     | .ok cnt, .ok body => (Spec.decodeSequences (cnt ++ body) {}).map (·.1)
+     | _, _ => none) = some [⟨3, 12, 19⟩, ⟨17, 3, 1101⟩] := by
+  decide +kernel
 
 /-! ### non-vacuity -/
 
